@@ -505,7 +505,7 @@ def _run(case: Dict[str, Any], sim: Sim, world: World, clock: SimClock) -> None:
             if s is not None:
                 flagged = bool(s["early_stop"])
                 Gc = s["canon_graph"]
-                perm = s["canonical_perm"]
+                perm = s.get("canonical_perm") or []
                 mp = {v: i + 1 for i, v in enumerate(perm)}
                 got = canon_sig(Gc, bip, sto)
                 exact = (sorted(mp.keys(), key=str) == sorted(Gv.nodes(), key=str)
